@@ -149,9 +149,13 @@ impl MetadataSlab {
                 .map(|(k, v)| (k.clone(), v.clone()))
                 .collect()
         } else {
-            // Prefix is all 0xFF bytes, scan to end of shard
+            // No end key: the prefix with its last byte incremented is not a string (the last
+            // byte is 0x7F or 0xBF, e.g. a prefix ending in `п` or `ÿ`). The keys that start
+            // with the prefix are the first ones of the range, so stop at the first that
+            // does not instead of returning the rest of the shard.
             shard
                 .range(prefix_owned..)
+                .take_while(|(k, _)| k.starts_with(prefix))
                 .map(|(k, v)| (k.clone(), v.clone()))
                 .collect()
         }
@@ -186,7 +190,10 @@ impl MetadataSlab {
         if let Some(end_key) = next_prefix(prefix) {
             shard.range(prefix_owned..end_key).count()
         } else {
-            shard.range(prefix_owned..).count()
+            shard
+                .range(prefix_owned..)
+                .take_while(|(k, _)| k.starts_with(prefix))
+                .count()
         }
     }
 
@@ -226,7 +233,11 @@ impl MetadataSlab {
             if let Some(end_key) = next_prefix(prefix) {
                 Box::new(shard.range(prefix_owned..end_key))
             } else {
-                Box::new(shard.range(prefix_owned..))
+                Box::new(
+                    shard
+                        .range(prefix_owned..)
+                        .take_while(|(k, _)| k.starts_with(prefix)),
+                )
             };
 
         iter.filter_map(|(k, v)| f(k, v)).collect()
@@ -416,7 +427,9 @@ impl MetadataSlabSnapshot {
 
 /// Compute the exclusive end key for prefix scanning.
 ///
-/// Returns the smallest string greater than all strings starting with the prefix.
+/// Returns the smallest string greater than all strings starting with the prefix, or `None`
+/// when there is no such string: the prefix is empty, or incrementing its last byte does not
+/// give valid UTF-8 (last byte 0x7F or 0xBF). Callers must then bound the range themselves.
 fn next_prefix(prefix: &str) -> Option<String> {
     if prefix.is_empty() {
         // Empty prefix matches everything, no upper bound needed
